@@ -433,6 +433,13 @@ fn to_expr(f: &F, kinds: &[AtomKind], src: &mut Src, paren_extra: bool) -> Expr 
 /// `more`: further formulas written as further filter selectors of the same bracketed selection
 /// (`[?f, ?g]`): each contributes its own kept children, one selector after the other
 fn check_formula(f: &F, more: &[F], k: usize, kinds: &[AtomKind], src: &mut Src, as_object: bool, paren_extra: bool, obs: &mut Obs) -> Res {
+    check_formula_on(f, more, k, kinds, src, as_object, paren_extra, false, obs)
+}
+
+/// `multi`: the filter is applied to several input nodes at once (`$.hs[*][?f]`): two copies of the holder
+/// with scalars and empty containers between them; each input node contributes its own kept children
+#[allow(clippy::too_many_arguments)]
+fn check_formula_on(f: &F, more: &[F], k: usize, kinds: &[AtomKind], src: &mut Src, as_object: bool, paren_extra: bool, multi: bool, obs: &mut Obs) -> Res {
     // root flags: a RootFlag atom is constant over the children; give it a random truth for this document
     let mut root: Vec<(String, J)> = vec![];
     let mut flag_truth = vec![false; k];
@@ -475,7 +482,13 @@ fn check_formula(f: &F, more: &[F], k: usize, kinds: &[AtomKind], src: &mut Src,
         a.extend(extras.iter().cloned());
         J::Arr(a)
     };
-    root.push(("h".to_string(), holder));
+    if multi {
+        let between = |src: &mut Src| src.pick(&[J::Int(7), J::Str("s".into()), J::Null, J::Arr(vec![]), J::Obj(vec![]), J::Bool(true)]).clone();
+        let hs = vec![between(src), holder.clone(), between(src), between(src), holder.clone(), between(src)];
+        root.push(("hs".to_string(), J::Arr(hs)));
+    } else {
+        root.push(("h".to_string(), holder));
+    }
     let doc = J::Obj(root).sorted();
     let e = to_expr(f, kinds, src, paren_extra);
     let mut sels = vec![Sel::Filter(e)];
@@ -483,12 +496,16 @@ fn check_formula(f: &F, more: &[F], k: usize, kinds: &[AtomKind], src: &mut Src,
         sels.push(Sel::Filter(to_expr(g, kinds, src, paren_extra)));
     }
     let all_fs: Vec<&F> = std::iter::once(f).chain(more.iter()).collect();
-    let q = Query { abs: true, segs: vec![nseg("h"), Seg { desc: false, sels, dot: false }] };
+    let q = if multi {
+        Query { abs: true, segs: vec![nseg("hs"), Seg { desc: false, sels: vec![Sel::Wild], dot: false }, Seg { desc: false, sels, dot: false }] }
+    } else {
+        Query { abs: true, segs: vec![nseg("h"), Seg { desc: false, sels, dot: false }] }
+    };
     let blanks = src.chance(1, 3);
     let text = crate::gen::render_with_blanks(src, &q, blanks);
     // expected: satisfying valuations in original order
     let kept = |flip: u32| -> Vec<i64> { all_fs.iter().flat_map(|f| children.iter().filter(|(v, _)| f.eval(*v ^ flip)).map(|(v, _)| *v as i64).collect::<Vec<_>>()).collect() };
-    let exp_ids: Vec<i64> = kept(0);
+    let exp_ids: Vec<i64> = if multi { [kept(0), kept(0)].concat() } else { kept(0) };
     // harness self-consistency: the reference evaluator must agree with plain Boolean evaluation
     let oracle_nodes = oracle::eval(&q, &doc, &Quirks::strict());
     let via_oracle: Vec<i64> = oracle_nodes
@@ -510,7 +527,7 @@ fn check_formula(f: &F, more: &[F], k: usize, kinds: &[AtomKind], src: &mut Src,
     let map = node_map(&v);
     obs.eval(1);
     let nested = kinds[..k].iter().any(|x| matches!(x, AtomKind::NestedQ | AtomKind::NestedSelf | AtomKind::NestedDesc | AtomKind::NestedUnion));
-    let varying = !exp_ids.is_empty() && exp_ids.len() < children.len() * all_fs.len();
+    let varying = !exp_ids.is_empty() && exp_ids.len() < children.len() * all_fs.len() * if multi { 2 } else { 1 };
     if !more.is_empty() {
         obs.label("several-filter-selectors");
     }
@@ -541,7 +558,10 @@ fn check_formula(f: &F, more: &[F], k: usize, kinds: &[AtomKind], src: &mut Src,
     }
     // `$` is the root of the document being queried *now*: the query parsed once is evaluated on this
     // document and then on a variant with every root flag flipped, stored at the same address
-    if kinds[..k].iter().any(|x| *x == AtomKind::RootFlag) && got_ids == exp_ids {
+    if multi {
+        obs.label("filter-over-several-input-nodes");
+    }
+    if kinds[..k].iter().any(|x| *x == AtomKind::RootFlag) && got_ids == exp_ids && !multi {
         if let Ok(ast) = libx::parse(&text) {
             let mut root2: Vec<(String, J)> = vec![];
             let mut flip_mask = 0u32;
@@ -642,9 +662,24 @@ fn gen_formula(src: &mut Src, k: usize, depth: usize) -> F {
 fn random_formulas(src: &mut Src, obs: &mut Obs) -> Res {
     let k = 1 + src.below(4);
     let kinds: Vec<AtomKind> = (0..k).map(|_| *src.pick(&KINDS)).collect();
-    let f = gen_formula(src, k, 4);
+    let f = if src.chance(1, 8) {
+        // a long flat chain: 5-40 operands over the same few atoms, `&&` and `||` mixed, some negated
+        obs.label("long-chain(5-40 operands)");
+        let n = 5 + src.below(36);
+        let mut f = F::Var(src.below(k));
+        for _ in 1..n {
+            let v = if src.chance(1, 4) { F::Not(Box::new(F::Var(src.below(k)))) } else { F::Var(src.below(k)) };
+            f = if src.chance(2, 3) { F::And(Box::new(f), Box::new(v)) } else { F::Or(Box::new(f), Box::new(v)) };
+        }
+        f
+    } else {
+        gen_formula(src, k, 4)
+    };
     let as_object = src.chance(1, 3);
     let extra = src.chance(1, 3);
+    if src.chance(1, 5) {
+        return check_formula_on(&f, &[], k, &kinds, src, as_object, extra, true, obs);
+    }
     check_formula(&f, &[], k, &kinds, src, as_object, extra, obs)
 }
 
